@@ -1313,7 +1313,30 @@ fn emit_calls(seed: u64, tier: Tier, unit: u64, sink: &mut dyn FnMut(Plan) -> bo
     let mut rng = Rng::new(mix(seed, "C20-calls", unit));
     let r = &mut rng;
     let which = unit % 10;
-    let gen_cal_choice = |r: &mut Rng| -> CalChoice {
+    let gen_cal_choice = |r: &mut Rng, near_day: i64| -> CalChoice {
+        // sometimes a closure of more than a year around the date (a run of consecutive
+        // holidays), as the business calendar or as the settlement calendar
+        if r.chance(0.12) {
+            let before = r.i64_in(0, 500);
+            let after = r.i64_in(0, 500);
+            let closed = CalSpec {
+                holidays: ((near_day - before)..=(near_day + after))
+                    .map(|d| (d * 86_400, 0))
+                    .collect(),
+                mask: if r.chance(0.5) { vec![5, 6] } else { vec![] },
+            };
+            return if r.chance(0.6) {
+                CalChoice::Cal(closed)
+            } else {
+                CalChoice::Union(UnionSpec {
+                    members: vec![CalSpec {
+                        holidays: vec![],
+                        mask: vec![5, 6],
+                    }],
+                    settle: Some(vec![closed]),
+                })
+            };
+        }
         match r.below(4) {
             0 => CalChoice::Named(gen_named(r)),
             1 => {
@@ -1336,8 +1359,9 @@ fn emit_calls(seed: u64, tier: Tier, unit: u64, sink: &mut dyn FnMut(Plan) -> bo
     match which {
         0..=3 => {
             // day-count arithmetic: all 256 values of the 8-bit parameter
-            let cal = gen_cal_choice(r);
-            let date = r.i64_in(0, ymd_day(2200, 12, 31)) * 86_400;
+            let date_day = r.i64_in(0, ymd_day(2200, 12, 31));
+            let cal = gen_cal_choice(r, date_day);
+            let date = date_day * 86_400;
             let func = match which {
                 0 => DateFn::AddDays,
                 1 => DateFn::AddBusDays,
@@ -1366,8 +1390,8 @@ fn emit_calls(seed: u64, tier: Tier, unit: u64, sink: &mut dyn FnMut(Plan) -> bo
         }
         4 | 5 => {
             // month arithmetic: offsets landing in 1970..2200, every roll kind and day 1..31
-            let cal = gen_cal_choice(r);
             let day = r.i64_in(0, ymd_day(2200, 12, 31));
+            let cal = gen_cal_choice(r, day);
             let date = day * 86_400;
             let nd = ts_to_ndt(date);
             let year = nd.format("%Y").to_string().parse::<i32>().unwrap();
@@ -1605,6 +1629,32 @@ fn emit_calls(seed: u64, tier: Tier, unit: u64, sink: &mut dyn FnMut(Plan) -> bo
                         }
                     }
                 }
+            }
+            // high orders (the order is a plain usize with no documented limit)
+            for _ in 0..2 {
+                let k = r.usize_in(6, 18);
+                let mut t = vec![0.0; k];
+                let mut x = 0.0;
+                for _ in 0..r.usize_in(0, 2) {
+                    x += 1.0;
+                    t.push(x);
+                }
+                x += 1.0;
+                t.extend(std::iter::repeat(x).take(k));
+                let spec = SplineSpec {
+                    kind: r.below(3) as u8,
+                    k,
+                    t: t.into_iter().map(Fx::new).collect(),
+                };
+                let good = gen_solve(r, &spec, false);
+                sink(Plan::Call(CallSpec::Csolve {
+                    spec: spec.clone(),
+                    tau: good.tau.clone(),
+                    y: good.y.clone(),
+                    left_n: 0,
+                    right_n: 0,
+                    allow_lsq: false,
+                }));
             }
             // histories of solves on one object: exact, least-squares with extra sites appended
             // (so that one site vector is a prefix of another), refused, repeated
